@@ -85,13 +85,26 @@ func (i *LocalImporter) Import(ctx context.Context, name string) (*object.Module
 
 	code, err := parseAndCompile(ctx, source, fullPath, i.globalNames)
 	if err != nil {
-		return nil, err
+		return nil, &ModuleError{Name: name, Err: err}
 	}
 
 	i.codeCache[name] = code
 
 	return object.NewModule(name, code), nil
 }
+
+// ModuleError is the error of an Importer that has found the module it was
+// asked for and cannot supply it: its source does not parse or compile. The
+// module exists; an importer that has no module of that name returns an error
+// of another kind.
+type ModuleError struct {
+	Name string
+	Err  error
+}
+
+func (e *ModuleError) Error() string { return e.Err.Error() }
+
+func (e *ModuleError) Unwrap() error { return e.Err }
 
 func readFileWithExtensions(dir, name string, extensions []string) (string, string, bool) {
 	for _, ext := range extensions {
